@@ -51,6 +51,7 @@ Init ==
     /\ verdict = "run"
 
 SrcRead ==
+    /\ verdict = "run"
     /\ SLoc(P, s) # ""
     /\ UNCHANGED <<ci, v, verdict>>
     /\ IF SLoc(P, s) \in DOMAIN memo
@@ -63,6 +64,7 @@ SrcRead ==
                /\ ss' = {} /\ vs' = {}
 
 VMRead ==
+    /\ verdict = "run"
     /\ SLoc(P, s) = ""
     /\ VLoc(A, v) # ""
     /\ UNCHANGED <<ci, s, verdict>>
@@ -77,6 +79,7 @@ VMRead ==
 
 (* Both sides are at a command or an ending. *)
 Sync ==
+    /\ verdict = "run"
     /\ SLoc(P, s) = "" /\ VLoc(A, v) = ""
     /\ UNCHANGED ci
     /\ IF SObs(P, s) # VObs(A, v)
@@ -88,7 +91,7 @@ Sync ==
             /\ memo' = <<>> /\ ss' = {} /\ vs' = {}
             /\ UNCHANGED verdict
 
-Next == verdict = "run" /\ (SrcRead \/ VMRead \/ Sync)
+Next == SrcRead \/ VMRead \/ Sync
 
 Spec == Init /\ [][Next]_vars
 
